@@ -37,7 +37,7 @@ m = {
     "version": 1,
     "setup_cmd": "/verif/setup.sh",
     "hooks": {"guard": "may_verif", "enable": "RUSTFLAGS=\"--cfg may_verif\" (set in /verif/harness/.cargo/config.toml)",
-              "baseline_off_cmd": "cd /repo && cargo test --workspace --no-fail-fast --offline",
+              "baseline_off_cmd": "cd /repo && (cargo nextest run --workspace --no-fail-fast --tool-config-file pb:/w/lib/nextest.toml --profile pb --test-threads 8 --offline || cargo test --workspace --no-fail-fast --offline)",
               "source_commits": list(reversed(hook_commits)), "add_only": True},
     "engines": [{"name": "lean-proof+trace-replay", "path": "/verif/check", "serves_properties": sorted(claimed),
                  "kind_free_text": "Lean 4 theorems over a small-step model of each protocol; the same step function replays hook traces of the real code (correspondence); harness oracles give concrete failing histories"}],
